@@ -27,7 +27,8 @@
 static struct { LHAFileHeader h; uint8_t raw[32]; } slot;
 static unsigned slot_live, slot_freed;
 void *verif_calloc(size_t n, size_t sz) { (void) n; (void) sz; slot_live = 1; memset(&slot, 0, sizeof(slot)); return &slot.h; }
-void verif_free(void *p) { if (p == (void *) &slot.h) { ++slot_freed; slot_live = 0; } else free(p); }
+static int live_strings;             /* ghost: string allocations outstanding */
+void verif_free(void *p) { if (p == (void *) &slot.h) { ++slot_freed; slot_live = 0; } else { if (p != NULL) --live_strings; free(p); } }
 int verif_sprintf2(char *out, const char *fmt, const char *a, const char *b)
 {
 	unsigned i = 0, k;
@@ -46,6 +47,7 @@ void *verif_malloc(size_t n)
 	CHECK(n <= STROBJ, "string allocation fits the modelled object size");
 	p = malloc(STROBJ);
 	ASSUME(p != NULL);
+	++live_strings;
 	return p;
 }
 char *verif_strdup(const char *s)
@@ -83,6 +85,7 @@ static char *mkstr(const u8 *s)
 	char *r = malloc(STROBJ);
 	unsigned i;
 	ASSUME(r != NULL);
+	++live_strings;
 	for (i = 0; i <= NS; ++i) r[i] = (char) s[i];
 	return r;
 }
@@ -126,22 +129,22 @@ static int clean_path(const char *p)   /* C11 path invariant */
 
 void harness(void)
 {
-	INPUT_ARRAY(u8, name, NS + 1); INPUT_ARRAY(u8, path, NS + 1); INPUT_ARRAY(u8, method, 5); INPUT_ARRAY(u8, raw, RAWN);
+	INPUT_ARRAY(u8, nm, NS + 1); INPUT_ARRAY(u8, path, NS + 1); INPUT_ARRAY(u8, method, 5); INPUT_ARRAY(u8, raw, RAWN);
 	INPUT(u8, have_name); INPUT(u8, have_path); INPUT(u8, os); INPUT(u8, level); INPUT(u8, ok);
 	INPUT(u32, flags); INPUT(u32, perms); INPUT(u32, os9); INPUT(u32, length); INPUT(u16, ccrc);
 	LHAFileHeader *h;
 	unsigned i, nlen = 0, plen = 0, is_dir, is_link, doslike, haslower = 0;
 	static struct _LHAInputStream { int d; } st;
-	ASSUME(name[NS] == 0 && path[NS] == 0);
-	for (i = 0; i <= NS; ++i) { in_name[i] = name[i]; in_path[i] = path[i]; }
+	ASSUME(nm[NS] == 0 && path[NS] == 0);
+	for (i = 0; i <= NS; ++i) { in_name[i] = nm[i]; in_path[i] = path[i]; }
 	for (i = 0; i < 5; ++i) { ASSUME(method[i] != 0); in_method[i] = method[i]; }
 	for (i = 0; i < RAWN; ++i) in_raw[i] = raw[i];
 	in_have_name = have_name; in_have_path = have_path; in_os = os; in_level = level; in_ok = ok;
 	in_flags = flags; in_perms = perms; in_os9 = os9; in_length = length; in_ccrc = ccrc;
-	while (nlen < NS && name[nlen]) ++nlen;
+	while (nlen < NS && nm[nlen]) ++nlen;
 	while (plen < NS && path[plen]) ++plen;
 	/* what the level decoders guarantee about the name (hdr/l01.c, hdr/ext.c): no '/' in it */
-	for (i = 0; i < NS; ++i) ASSUME(name[i] != '/');
+	for (i = 0; i < NS; ++i) ASSUME(nm[i] != '/');
 	ASSUME(level <= 3);
 	in_level_byte = level;
 
@@ -153,11 +156,12 @@ void harness(void)
 	is_link = is_dir && (flags & LHA_FILE_UNIX_PERMS) && ((have_name & 1) || (have_path & 1)) && (perms & 0170000) == 0120000;
 	doslike = os == 0 || os == 'M' || os == 'a' || os == ' ' || os == '2';
 	for (i = 0; i < NS; ++i) {
-		if ((have_name & 1) && i < nlen && name[i] >= 'a' && name[i] <= 'z') haslower = 1;
+		if ((have_name & 1) && i < nlen && nm[i] >= 'a' && nm[i] <= 'z') haslower = 1;
 		if ((have_path & 1) && i < plen && path[i] >= 'a' && path[i] <= 'z') haslower = 1;
 	}
 	if (h == NULL) {
 		CHECK(slot_freed == 1 && !slot_live, "C20: a rejected header's block is released exactly once");
+		CHECK(live_strings == 0, "C20: a rejected header leaves no string allocation behind (names, link target, temporary joined path)");
 		/* completeness: everything in order => returned */
 		if ((ok & 1) && !(flags & LHA_FILE_COMMON_CRC) && !is_link && (is_dir ? (have_path & 1) : (have_name & 1)))
 			CHECK(0, "C05: a decoded header with the entry's mandatory name/path and no common CRC is returned");
@@ -198,7 +202,7 @@ void harness(void)
 			if (have_name & 1) {
 				CHECK(h->filename != NULL, "C05: name kept");
 				if (h->filename != NULL) {
-					for (i = 0; i < NS; ++i) if (i < nlen) CHECK((u8) h->filename[i] == ((doslike && !haslower) ? (u8) lower(name[i]) : name[i]),
+					for (i = 0; i < NS; ++i) if (i < nlen) CHECK((u8) h->filename[i] == ((doslike && !haslower) ? (u8) lower(nm[i]) : nm[i]),
 						"C05: name bytes; lower-cased exactly when from a DOS-like system and no lower-case letter in path or name");
 					CHECK(h->filename[nlen] == 0, "C05: name length");
 				}
@@ -216,7 +220,7 @@ void harness(void)
 			u8 full[2 * NS + 1];
 			unsigned fl = 0, bar = 2 * NS + 1, k;
 			if (have_path & 1) for (k = 0; k < plen; ++k) full[fl++] = path[k];
-			if (have_name & 1) for (k = 0; k < nlen; ++k) full[fl++] = name[k];
+			if (have_name & 1) for (k = 0; k < nlen; ++k) full[fl++] = nm[k];
 			full[fl] = 0;
 			for (k = 2 * NS; k-- > 0;) if (k < fl && full[k] == '|') bar = k;
 			CHECK(bar < fl, "C12: a symbolic-link entry without '|' is not returned");
@@ -230,10 +234,14 @@ void harness(void)
 			}
 		}
 		if (is_link && (have_path & 1) && plen == NS && path[1] == '|') WITNESS("symlink whose '|' sits in the path part");
-		if (!is_dir && doslike && !haslower && nlen == NS && name[0] == 'A') WITNESS("all-caps DOS name folded");
+		if (!is_dir && doslike && !haslower && nlen == NS && nm[0] == 'A') WITNESS("all-caps DOS name folded");
 		if ((flags & LHA_FILE_COMMON_CRC)) WITNESS("common CRC matched");
 		if (is_dir && !is_link && plen >= 2 && path[0] == '.' && path[plen - 1] == '/' && !clean_path((const char *) path)) WITNESS("directory path with a dot component collapsed");
 		if (os == 'K' && (flags & LHA_FILE_UNIX_PERMS)) WITNESS("OS-9/68k permissions");
+	}
+	if (h != NULL) {
+		lha_file_header_free(h);
+		CHECK(slot_freed == 1 && live_strings == 0, "C20: releasing a returned header releases its block and every string it owns");
 	}
 	WITNESS("end");
 }
